@@ -3,7 +3,7 @@
    (bytes) the harness compares with the implementation's view.  Definitions only. *)
 Require Import AS.Base.Prelude AS.Base.Hex AS.Base.Dec AS.Base.Crc AS.Base.Exchange AS.Base.Utf8 AS.Base.Float AS.Gen.Extracted
   AS.Model.DeviceTools AS.Model.ScheduleTools AS.Model.Remotes AS.Model.Messages AS.Model.Api AS.Model.NextRun AS.Model.ScheduleParser
-  AS.Model.Clock AS.Model.Bridge AS.Model.Lifecycle AS.Model.MultiBridge AS.Model.Ops
+  AS.Model.Clock AS.Model.Bridge AS.Model.Lifecycle AS.Model.MultiBridge AS.Model.Ops AS.Model.Session AS.Spec.Session AS.Spec.Client
   AS.Spec.Sign AS.Spec.Frame AS.Spec.FrameLayout AS.Spec.Encoders AS.Spec.FrameSpec AS.Spec.NextRun AS.Spec.Remote.
 Local Open Scope string_scope.
 Local Open Scope list_scope.
@@ -84,6 +84,29 @@ Definition mk_op (kind : N) (x : list arg) : option op :=
 Definition e_op (kind : N) (id key : bytes) (now : N) (x : list arg) (replies : list bytes) : option bytes :=
   match mk_op kind x with
   | Some o => Some (exchange_text {| device_id := id; device_key := key |} now o replies)
+  | None => None
+  end.
+
+(* seq <id-hex-text> <key-hex-text> [[kind now [op args]] ...] [replies]: operations awaited one after another on ONE connection
+   whose device sends the replies in this order; the text is every frame, then every outcome.  seq_spec: the same through the
+   Spec's reading (each operation alone on the replies the earlier ones left) *)
+Definition mk_ops (l : list arg) : option (list (N * op)) :=
+  fold_right (fun a acc => match acc, mk_op (gn (nth_arg (gl a) 0)) (gl (nth_arg (gl a) 2)) with
+                           | Some t, Some o => Some ((gn (nth_arg (gl a) 1), o) :: t)
+                           | _, _ => None end) (Some []) l.
+Definition show_seq (x : list bytes * list (result bytes)) : bytes :=
+  let '(fs, rs) := x in
+  concat (map (fun f => hexlify f ++ [124%N]) fs) ++
+  concat (map (fun r => match r with Ok t => t | Exc e => s2l "exc:" ++ s2l (exn_name e) end ++ [59%N]) rs).
+Definition e_seq (id key : bytes) (ops : list arg) (replies : list bytes) : option bytes :=
+  match mk_ops ops with
+  | Some l => Some (show_seq (run_seq {| device_id := id; device_key := key |} l replies))
+  | None => None
+  end.
+Definition e_seq_spec (id key : bytes) (ops : list arg) (replies : list bytes) : option bytes :=
+  match mk_ops ops with
+  | Some l => let a := alone {| device_id := id; device_key := key |} l replies in
+              Some (show_seq (concat (map fst a), map snd a))
   | None => None
   end.
 
@@ -301,6 +324,16 @@ Definition e_client (acts : list arg) : bytes :=
              ++ str_N (N.of_nat (dev_eofs s')) ++ s2l (match o with CDone => "." | CRaised => "!" end) ++ [124%N]) in
   snd (fold_left show acts (cinit, [])).
 
+(* the Spec's reading of the same history (Spec/Client.v): the flag after every action, and the connections accepted so far *)
+Definition e_client_spec (acts : list arg) : bytes :=
+  let mk (a : arg) :=
+    let k := gn (nth_arg (gl a) 0) in let f := gbool (nth_arg (gl a) 1) in
+    match k with 0%N => CConnect f | 1%N => CDisconnect | 2%N => COperation f | 3%N => CWith f false | _ => CWith f true end in
+  let show (acc : list caction * bytes) (a : arg) :=
+    let '(h, out) := acc in let h' := h ++ [mk a] in
+    (h', out ++ s2l (if spec_connected h' then "C" else "c") ++ str_N (N.of_nat (spec_accepted h')) ++ [124%N]) in
+  snd (fold_left show acts ([], [])).
+
 Definition mk_irset (rid onoff waves : arg) : irset := {| ir_id := gb rid; ir_onoff := gz onoff; ir_waves := mk_waves waves |}.
 
 Definition dispatch (f : bytes) (a : list arg) : option bytes :=
@@ -311,6 +344,8 @@ Definition dispatch (f : bytes) (a : list arg) : option bytes :=
   else if is_fn f "duration" then Some (e_duration (gb (x 0%nat)) (gb (x 1%nat)))
   else if is_fn f "duration_spec" then Some (e_duration_spec (gb (x 0%nat)) (gb (x 1%nat)))
   else if is_fn f "op" then e_op (gn (x 0%nat)) (gb (x 1%nat)) (gb (x 2%nat)) (gn (x 3%nat)) (gl (x 4%nat)) (glb (x 5%nat))
+  else if is_fn f "seq" then e_seq (gb (x 0%nat)) (gb (x 1%nat)) (gl (x 2%nat)) (glb (x 3%nat))
+  else if is_fn f "seq_spec" then e_seq_spec (gb (x 0%nat)) (gb (x 1%nat)) (gl (x 2%nat)) (glb (x 3%nat))
   else if is_fn f "spec_frame" then e_spec_frame (gn (x 0%nat)) (gb (x 1%nat)) (gb (x 2%nat)) (gn (x 3%nat)) (gl (x 4%nat))
   else if is_fn f "spec_login" then Some (e_spec_login (gbool (x 0%nat)) (gb (x 1%nat)) (gb (x 2%nat)) (gn (x 3%nat)))
   else if is_fn f "frame_ok" then Some (e_frame_ok (gb (x 0%nat)))
@@ -340,6 +375,7 @@ Definition dispatch (f : bytes) (a : list arg) : option bytes :=
   else if is_fn f "build" then Some (e_build (mk_remote (x 0%nat) (x 1%nat) (x 2%nat)) (gl (x 3%nat)))
   else if is_fn f "build_spec" then Some (e_build_spec (mk_irset (x 0%nat) (x 1%nat) (x 2%nat)) (gl (x 3%nat)))
   else if is_fn f "build_swing" then Some (e_build_swing (mk_remote (x 0%nat) (x 1%nat) (x 2%nat)) (gbool (x 3%nat)))
+  else if is_fn f "client_spec" then Some (e_client_spec (gl (x 0%nat)))
   else if is_fn f "bridge" then Some (e_bridge (glnat (x 0%nat)) (gl (x 1%nat)))
   else if is_fn f "bridge2" then Some (e_bridge2 (glnat (x 0%nat)) (gl (x 1%nat)))
   else if is_fn f "client" then Some (e_client (gl (x 0%nat)))
